@@ -14,6 +14,7 @@ EXPLANATION = (
     "the emission phase writes ids, authors, kinds, tags in layout order after the member loop; the writer emits "
     "exactly the member names the parser accepts and escapes tag names and values. Accessor values versus an "
     "independent parser and byte-identical round trip are not decided.")
+EXPLANATION += " Also decided: no branch of the parser depends on the contents an earlier member wrote into the output buffer (the seen-flags are the only state carried between members); json_unescape writes only table constants, verbatim input bytes or encode_utf8 output."
 ASSUMPTIONS = []
 
 WRITER_NAMES = {b'"ids":[', b'"authors":[', b'"kinds":[', b'"limit":', b'"since":', b'"until":', b'"#'}
